@@ -22,6 +22,7 @@ ASSUMPTIONS = ["the canonical snapshot (value + kind) of the user variables plus
 MIN_COUNTS = {"quick": {"nontrivial": 800, "statements_compared": 6000, "repeated_text_evaluations": 500, "amend_of_derived_value": 300},
               "thorough": {"nontrivial": 15000, "statements_compared": 100000, "repeated_text_evaluations": 8000, "amend_of_derived_value": 5000}}
 CASE_TIMEOUT = 120
+MEM_LIMIT_GB = 6
 
 NAMES = ["a", "b", "c", "d"]
 
@@ -273,6 +274,10 @@ def run_case(ctx, case):
     seen_texts = set()
     cnt = res["counters"]
     for i, s in enumerate(hist):
+        if kl.state_size(A, 20000) > 20000:
+            # repeated joins / takes grew a variable beyond what a history needs; comparing such values costs minutes and adds nothing
+            cnt["histories_cut_oversized"] = 1
+            break
         pre = _snap_clean(_snap(A))
         B = _build_twin(pre, defs, module)
         # self-check: the twin's state must equal A's pre-state, otherwise the statement is not judged
